@@ -43,6 +43,7 @@ type Opts struct {
 	Diamonds          bool // directed diamond in the import graph (root -> a, root -> b, a -> b)
 	SameNameAsRoot    bool // an imported package may be named like the analysed package (models imports legacy/models)
 	NestedGenerics    bool // a generic struct with `T any` instantiated with another instantiation and with a basic type (analysis-only properties)
+	EmbedUnionIface   bool // a struct may embed a union interface (compile-only properties: the struct becomes a member of that union)
 	EmbedUnionHolders bool // an untagged embedded struct may hold union fields (they are flattened into the outer struct)
 	LongArrays        bool // directed: fixed arrays of 4..9 elements without an acceptable zero value (C15)
 	SameNamePromoted  bool // a flattened embedded struct may have a field with the Go name of an outer field, under another JSON key
